@@ -11,6 +11,7 @@ ok, log = core.build_coq()
 if not ok:
     print(log[-3000:]); sys.exit(1)
 core.build_rust()
+core.build_rust_release()
 core.build_sup()
 print("setup ok")
 PY
